@@ -189,6 +189,7 @@ func (in *Interp) fork(conds []*Term, val uint64) int {
 		panic(pathEnd{kind: "infeasible"})
 	}
 	eager := len(conds) <= 4
+	pushed := 0
 	for j := chosen + 1; j < len(conds); j++ {
 		if conds[j].IsFalse() {
 			continue
@@ -206,8 +207,18 @@ func (in *Interp) fork(conds []*Term, val uint64) int {
 		copy(alt, in.trace)
 		alt[len(in.trace)] = Decision{N: len(conds), Choice: j, Val: val, Checked: eager}
 		in.ex.push(alt)
+		pushed++
 	}
 	in.trace = append(in.trace, Decision{N: len(conds), Choice: chosen, Val: val})
+	if in.ex.cfg.Verbose {
+		site := "?"
+		if in.curFrame != nil {
+			site = in.curFrame.fn.String()
+		}
+		if pushed > 0 {
+			in.ex.noteForkSite(site, pushed)
+		}
+	}
 	in.addPC(conds[chosen])
 	return chosen
 }
